@@ -43,3 +43,18 @@ Proof.
   intros (Hok & Ht & Htg & _) Hn Hc. apply (doc_rule_line_null scfg rl Hok Ht Htg (srow_of_raw rw) n Hn).
   destruct (sval scfg (srow_of_raw rw) n) eqn:E; [|reflexivity]. exfalso. apply Hc. apply sval_present. rewrite E. discriminate.
 Qed.
+
+(* FOR EVERY DOCUMENT (whatever the predicate-object maps hold: joins, quoted maps, functions): a row with a NULL (or a token of na_values)
+   in a column the subject map references gives no statement at all through that triples map *)
+From Morph Require Import Proofs.DocRowSetsP.
+Lemma flat_map_nil_l {A B} (f : A -> list B) : flat_map f [] = [].
+Proof. reflexivity. Qed.
+Theorem null_in_subject_reference_gives_nothing scfg fe doc tables t r n :
+  is_plain (m_kind (t_subj t)) = true -> In n (names (segs_of (m_kind (t_subj t)) (m_value (t_subj t)))) -> sval scfg r n = None ->
+  tm_row_lines scfg fe doc tables t r = [].
+Proof.
+  intros Hk Hn Hs. unfold tm_row_lines. destruct (spec_fuel_S doc) as (f & ->). rewrite subj_S.
+  assert (E : spec_terms scfg fe (m_kind (t_subj t)) (m_value (t_subj t)) (spec_tt_subject (t_subj t)) [] r = []).
+  { unfold spec_terms. rewrite (spec_lex_null scfg _ _ (spec_tt_subject (t_subj t)) [] r n Hk Hn Hs). destruct (m_kind (t_subj t)); try reflexivity; discriminate. }
+  destruct (m_kind (t_subj t)); try discriminate; rewrite E; reflexivity.
+Qed.
